@@ -42,6 +42,8 @@ type DInput struct {
 	// so many earlier sessions, each complete (histSession(svc, k): a tftp upload, a memcached set,
 	// a mail, a login ...), every one from its own client address, before anything else
 	Hist int `json:"hist,omitempty"`
+	// variant "address": how the probe's and the other client's addresses relate (addrPairs)
+	Pair string `json:"pair,omitempty"`
 }
 type DObs struct {
 	Alone    []string `json:"alone"`    // per probe step (+ tail, + event stream): digest
@@ -122,7 +124,7 @@ func canonRawEvent(ev event.Event) string {
 
 func eventOf(ev event.Event, conn int) bool {
 	m := event.ToMap(ev)
-	return connOfAddr(asStr(m["source-ip"]), asInt(m["source-port"])) == conn
+	return connOfAddr(asStr(m["source-ip"]), asInt(m["source-port"])) == canonID(conn)
 }
 
 // runs the schedule; returns, per probe step (+ one tail entry), the canonical form of what the
@@ -420,10 +422,11 @@ func tableOf(svc int) table {
 		}
 	case TFTP:
 		d := func(blk byte, n int) []byte { return append([]byte{0, 3, 0, blk}, []byte(strings.Repeat("d", n))...) }
+		pd := func(blk byte, n int) []byte { return append([]byte{0, 3, 0, blk}, []byte(strings.Repeat("P", n))...) } // the probe's own bytes
 		return table{
 			others: [][]byte{[]byte("\x00\x01fa\x00octet\x00"), []byte("\x00\x02fa\x00octet\x00"), d(1, 512), d(2, 512), d(3, 100), d(1, 0),
 				{0, 4, 0, 1}, {0, 5, 0, 1, 'e', 0}, {0, 9, 0, 0}, []byte("\x00\x02other\x00netascii\x00")},
-			probe: [][]byte{[]byte("\x00\x02probe\x00octet\x00"), d(1, 512), d(2, 77), []byte("\x00\x01probe\x00octet\x00")},
+			probe: [][]byte{[]byte("\x00\x02probe\x00octet\x00"), pd(1, 512), pd(2, 77), []byte("\x00\x01probe\x00octet\x00")},
 		}
 	case MCUDP:
 		h := func(s string) []byte { return append([]byte{0, 1, 0, 0, 0, 1, 0, 0}, []byte(s)...) }
@@ -870,6 +873,7 @@ func genDiff(r *hx.Rand, tier string) []DInput {
 				}
 			}
 		}
+		ins = append(ins, genDiffAddr(r, tier, svc)...)
 		// long sequential histories: so many complete earlier sessions, then the probe
 		hists := []int{1, 10, 100}
 		if udp {
@@ -907,6 +911,58 @@ func genDiff(r *hx.Rand, tier string) []DInput {
 	return ins
 }
 
+// the ADDRESS dimension: the probe and ONE other client whose addresses differ in one respect only
+// (addrPairs), both ways round; the other client has its own dialogue in flight while the probe's is
+func genDiffAddr(r *hx.Rand, tier string, svc int) []DInput {
+	var ins []DInput
+	udp := svc == TFTP || svc == MCUDP
+	pairs := addrPairs()
+	if !udp && tier == "quick" {
+		// quick: two pair kinds per tcp service, drawn
+		for i := len(pairs) - 1; i > 0; i-- {
+			j := r.Intn(i + 1)
+			pairs[i], pairs[j] = pairs[j], pairs[i]
+		}
+		var keep []addrPair
+		for _, p := range pairs {
+			if !p.samePeer && len(keep) < 2 {
+				keep = append(keep, p)
+			}
+		}
+		pairs = keep
+	}
+	for _, p := range pairs {
+		if p.samePeer || (udp && p.sameHost) {
+			continue // one peer / one bucket of the limiter: dependence is by design
+		}
+		for _, d := range [][2]int{{p.a, p.b}, {p.b, p.a}} {
+			var other DSess
+			switch {
+			case svc == TFTP:
+				// a complete upload of the other client
+				other = DSess{Conn: d[1]}
+				for _, x := range [][]byte{[]byte("\x00\x02fa\x00octet\x00"), append([]byte{0, 3, 0, 1}, bytes.Repeat([]byte{'d'}, 512)...), append([]byte{0, 3, 0, 2}, bytes.Repeat([]byte{'d'}, 100)...)} {
+					other.Steps = append(other.Steps, DStep{Kind: "send", Data: x})
+				}
+			case udp:
+				other = genOther(r, svc, d[1], true)
+			default:
+				other = genOther(r, svc, d[1], false)
+			}
+			modes := []string{"woven", "mixed"}
+			if svc != TFTP && tier == "quick" {
+				modes = []string{r.PickStr(modes)}
+			}
+			for _, mode := range modes {
+				in := DInput{Svc: svc, Variant: "address", Probe: probeOf(svc, d[0], "main"), Others: []DSess{other}, Pair: p.name}
+				orderOf(r, &in, mode)
+				ins = append(ins, in)
+			}
+		}
+	}
+	return ins
+}
+
 func coqDiff(id int, in DInput, ob DObs) string {
 	var ps []string
 	for i := range ob.Alone {
@@ -938,14 +994,17 @@ func diffPart(o hx.Opts, r *hx.Rand, only *DInput) {
 		}
 		dist["service:"+in.Name]++
 		dist[fmt.Sprintf("other-sessions:%d", len(in.Others))]++
-		if in.Probe.Conn >= 4096 {
+		if isV6(in.Probe.Conn) {
 			dist["probe-client:ipv6"]++
 		} else {
 			dist["probe-client:ipv4"]++
 		}
+		if in.Variant == "address" {
+			dist["probe-and-other-client:"+in.Pair]++
+		}
 		v6 := false
 		for _, s := range in.Others {
-			if s.Conn >= 4096 {
+			if isV6(s.Conn) {
 				v6 = true
 			}
 		}
